@@ -1,10 +1,10 @@
-use ron::from_str;
 
 use crate::cli::flow::args::FlowArgs;
 use crate::cli::utils::output_formatter::OutputFormatter;
 use crate::cli::version::pipeline::run_version_pipeline;
 use crate::error::ZervError;
 use crate::version::zerv::core::Zerv;
+use crate::version::zerv::zerv_ron_options;
 
 pub fn run_flow_pipeline(args: FlowArgs, stdin_content: Option<&str>) -> Result<String, ZervError> {
     tracing::debug!("Starting flow pipeline with args: {:?}", args);
@@ -23,7 +23,8 @@ pub fn run_flow_pipeline(args: FlowArgs, stdin_content: Option<&str>) -> Result<
     // Step 4: Run version pipeline with stdin content
     let ron_output = run_version_pipeline(version_args, stdin_content)?;
 
-    let zerv_object: Zerv = from_str(&ron_output)
+    let zerv_object: Zerv = zerv_ron_options()
+        .from_str(&ron_output)
         .map_err(|e| ZervError::InvalidFormat(format!("Failed to parse version output: {}", e)))?;
 
     let output = OutputFormatter::format_output(
